@@ -1,0 +1,14 @@
+//go:build verif
+
+// Contracts for package auth (the login, logout, me and change-password endpoints), read
+// by the verification-condition generator in /verif (govc).  Comment-only.
+
+package auth
+
+// The credentials checked are the credentials the client sent: the name and the password
+// handed to Authenticate are the fields decoded from the request body, byte for byte
+// (jsonfield(text, name): the value of field name in the JSON text, encoding/json assumed).
+//@ props C20
+//@ func LoginEndpoint.Post
+//@   requires r != nil && specStoreWF()
+//@   ghost callsite-requires [C20] Authenticate sid(arg_self.Password) == jsonfield(readall(r.Body), sid("Password")) && sid(arg_self.Username) == jsonfield(readall(r.Body), sid("Username"))
